@@ -32,12 +32,12 @@ Classes == {"add_inf_inf", "add_inf_p", "add_p_inf", "add_p_p", "add_p_negp", "a
             "equal_true_diffrep", "equal_neg", "equal_same_y", "equal_inf_inf", "equal_p_inf", "yodd", "yeven", "inf_parity", "enc_inf", "chain_step",
             "split_extreme", "split_neg1", "split_neg2", "split_round_flip", "split_limb_carry", "split_edge",
             "mul_zero", "mul_inf", "mul_alias", "mul_edge_scalar", "mul_altrep", "glv_bound",
-            "tbl_huge", "tbl_odd", "tbl_row", "bm_single_byte", "bm_zero_nibble", "bm_edge", "bm_priv", "bm_priv_after_derive",
+            "tbl_huge", "tbl_odd", "tbl_row", "bm_single_byte", "bm_zero_nibble", "bm_edge", "bm_priv", "bm_priv_after_derive", "bm_recycled",
             "dec_ok_cmp", "dec_ok_unc", "dec_ok_inf", "dec_bad_len", "dec_bad_prefix", "dec_noncanon_x", "dec_noncanon_y",
             "dec_offcurve", "dec_nonresidue", "dec_hybrid", "dec_recv_uninit", "dec_recv_kept", "dec_fresh", "coords_ok", "coords_bad",
             "rec_ok_low", "rec_ok_high", "rec_overflow", "rec_bad_id", "rec_nonresidue",
             "msm_len0", "msm_len1", "msm_len2", "msm_len3plus", "msm_long", "msm_zero_scalar", "msm_inf_point", "msm_dup",
-            "msm_inverse", "msm_alias", "msm_mismatch", "msm_cancel", "dsm"}
+            "msm_inverse", "msm_alias", "msm_mismatch", "msm_cancel", "dsm", "life_step", "life_reject", "life_inf", "life_ctrl"}
 
 (* ---- classification helpers ---- *)
 AddClass(a, b, ph, qh) ==
@@ -150,7 +150,8 @@ Verdict(ev) ==
     [] ev.ev = "mul.MulBeta" -> << OperandOK(ev.p) /\ ResultOK(ev, MulBeta(AffOf(ev.p))) /\ PEq(MulBeta(AffOf(ev.p)), PMul(Lambda, AffOf(ev.p))), {} >>
     [] ev.ev = "mul.ScalarMult" ->
          LET s == H(ev.s)  a == AffOf(ev.p) IN
-         << OperandOK(ev.p) /\ ResultOK(ev, PMul(s, a)) /\ (ev.alias = "none" => ev.p_post = ev.p),
+         << OperandOK(ev.p) /\ ResultOK(ev, PMul(s, a)) /\ (ev.alias = "none" => ev.p_post = ev.p)
+              /\ (Has(ev, "s_post") => ev.s_post = ev.s),                                   \* the scalar operand belongs to the caller
             (IF BigEq(s, 0) THEN {"mul_zero"} ELSE {}) \cup (IF IsInf(a) THEN {"mul_inf"} ELSE {})
             \cup (IF ev.alias = "v=p" THEN {"mul_alias"} ELSE {}) \cup (IF EdgeScalar(s) THEN {"mul_edge_scalar"} ELSE {})
             \cup (IF ~IsInf(a) /\ ~BigEq(Proj(ev.p)[3], 1) THEN {"mul_altrep"} ELSE {}) >>
@@ -161,8 +162,9 @@ Verdict(ev) ==
          << ev.j \in 1..15 /\ ev.i \in 0..31 /\ PEq(<<H(ev.x), H(ev.y)>>, OddEntry(ev.i, ev.j)), {"tbl_odd"} >>
     [] ev.ev = "bm.Mult" ->
          LET s == H(ev.s) IN
-         << ResultOK(ev, PMulG(s)),
-            (IF \E i \in 0..31 : BigEq(s, ByteAt(s, i) ** Pow2(8 * i)) THEN {"bm_single_byte"} ELSE {})
+         << ResultOK(ev, PMulG(s)) /\ (Has(ev, "cmp") => ev.cmp = EncCompressedH(PMulG(s))) /\ (Has(ev, "s_post") => ev.s_post = ev.s),
+            (IF ev.kind = "ct_recycled" THEN {"bm_recycled"} ELSE {})
+            \cup (IF \E i \in 0..31 : BigEq(s, ByteAt(s, i) ** Pow2(8 * i)) THEN {"bm_single_byte"} ELSE {})
             \cup (IF \E i \in 0..63 : BigEq((s // Pow2(4 * i)) %% 16, 0) /\ ~(s \prec Pow2(4 * i)) THEN {"bm_zero_nibble"} ELSE {})
             \cup (IF EdgeScalar(s) THEN {"bm_edge"} ELSE {}) >>
     [] ev.ev = "bm.Priv" ->
@@ -230,7 +232,44 @@ Verdict(ev) ==
             {"dsm"} \cup (IF ev.alias = "v=p" THEN {"mul_alias"} ELSE {}) >>
 
 (* ---- stateful events ---- *)
-IsStateful(ev) == ev.ev \in {"tbl.Row", "tbl.Huge", "chain.Reset", "chain.Op"}
+IsStateful(ev) == ev.ev \in {"tbl.Row", "tbl.Huge", "chain.Reset", "chain.Op", "pt.Life"}
+
+(* ---- object lifetime (pt.Life): the abstract point the long-lived object must hold after one more operation ---- *)
+LifeWant(acc, ev) ==
+  LET src == IF ev.src = "" THEN Inf ELSE DecPt(ev.src)
+      s   == IF ev.s = "" THEN 0 ELSE H(ev.s)
+      t   == IF ev.t = "" THEN 0 ELSE H(ev.t)
+  IN
+  CASE ev.op = "reset"     -> src
+    [] ev.op = "identity"  -> Inf
+    [] ev.op = "generator" -> GenPt
+    [] ev.op = "set"       -> src
+    [] ev.op = "add"       -> PAdd(acc, src)
+    [] ev.op = "radd"      -> PAdd(src, acc)
+    [] ev.op = "sub"       -> PSub(acc, src)
+    [] ev.op = "dbl"       -> PDbl(acc)
+    [] ev.op = "dbl_from"  -> PDbl(src)
+    [] ev.op = "neg"       -> PNeg(acc)
+    [] ev.op = "neg_from"  -> PNeg(src)
+    [] ev.op = "cneg"      -> IF ev.ctrl = 0 THEN acc ELSE PNeg(acc)
+    [] ev.op = "cneg_from" -> IF ev.ctrl = 0 THEN src ELSE PNeg(src)
+    [] ev.op = "csel"      -> IF ev.ctrl = 0 THEN acc ELSE src
+    [] ev.op = "csel2"     -> IF ev.ctrl = 0 THEN src ELSE acc
+    [] ev.op = "smul"      -> PMul(s, acc)
+    [] ev.op = "smul_from" -> PMul(s, src)
+    [] ev.op = "bmul"      -> PMulG(s)
+    [] ev.op = "dsm"       -> PAdd(PMulG(s), PMul(t, acc))
+    [] ev.op = "dsm_from"  -> PAdd(PMulG(s), PMul(t, src))
+    [] ev.op \in {"setbytes", "setbytes_bad"} -> LET d == DecodeB(HexToBytes(ev.bytes)) IN IF d[1] = "ok" THEN d[2] ELSE acc
+    [] ev.op = "msm1"      -> PMul(s, acc)
+    [] ev.op = "msmv"      -> PAdd(PMul(s, acc), PMul(t, src))
+LifeObsOK(ev, want) ==
+  LET u == EncUncompressedH(want)  cm == EncCompressedH(want) IN
+  /\ ev.unc = u /\ ev.unc_again = u /\ ev.copy_unc = u /\ ev.other_unc = u
+  /\ ev.cmp = cm /\ ev.copy_cmp = cm /\ ev.other_cmp = cm
+  /\ ev.isid = FlagOf(IsInf(want)) /\ ev.eqself = 1 /\ ev.eqcopy = 1
+  /\ IF IsInf(want) THEN ev.xb = "err" ELSE /\ ev.xb = IntToHex(want[1], W)
+                                            /\ ev.yodd = FlagOf(FIsOdd(want[2])) /\ ev.copy_yodd = ev.yodd
 
 (* <<ok, classes, tblBase', tblAcc', chain'>> *)
 StatefulVerdict(ev) ==
@@ -243,6 +282,12 @@ StatefulVerdict(ev) ==
               /\ EncUncompressedH(next) = HexCat("04", HexCat(ev.x, ev.y))
               /\ ((ev.j = 255) => PEq(PAdd(next, DecPt(tblBase[2])), PMulG(Pow2(8 * (ev.i + 1)) %% N))),   \* closes the row: 256 * base
             {"tbl_huge"}, tblBase, EncUncompressedH(next), chain >>
+    [] ev.ev = "pt.Life" ->
+         LET want == LifeWant(DecPt(chain), ev) IN
+         << LifeObsOK(ev, want),
+            {"life_step"} \cup (IF ev.op = "setbytes_bad" THEN {"life_reject"} ELSE {}) \cup (IF IsInf(want) THEN {"life_inf"} ELSE {})
+            \cup (IF ev.op \in {"cneg", "cneg_from", "csel", "csel2"} /\ ev.ctrl = 1 THEN {"life_ctrl"} ELSE {}),
+            tblBase, tblAcc, EncUncompressedH(want) >>
     [] ev.ev = "chain.Reset" ->
          << OperandOK(ev.p), {}, tblBase, tblAcc, EncUncompressedH(AffOf(ev.p)) >>
     [] ev.ev = "chain.Op" ->        \* v = v <op> q with the receiver re-used: the model's accumulator, not the log's, is the left operand
